@@ -18,7 +18,8 @@ RULE = ("K: tiny closed periodic boxes (3..5 cells per axis, also non-cubic) bui
         "non-dispersive twin; P_curr' = c1 P + c2 P_prev + c3 E (+ c4 E'); a run whose poles all have zero strength "
         "equals the plain run; media near the coupled stability bound either draw a warning or keep the field energy "
         "within 10x over 10^4 steps (random initial E). Multi-material scenes (two Spheres sharing one materials dict in shuffled / non-ascending order, "
-        "optionally a discrete Device): eps_inf and pole coefficients found in EVERY cell of the simulation arrays == C35-model "
+        "and, on two of three scenes, a dispersive static film half-overlapped by a discrete Device placed last — purely dielectric "
+        "(its cells must hold zero pole coefficients after apply_params) or with a dispersive material): eps_inf and pole coefficients found in EVERY cell of the simulation arrays == C35-model "
         "coefficients of the material owning the cell (painter rule), warning decision == model decision for every "
         "(eps, coefficients) pairing present in the arrays, and the closed-box energy oracle. Every run starts with 3 directed scenes: a CCPR pole with complex "
         "residue present (c4 allocated) and conductive cells with eps != 1 inside and outside the dispersive region. non-trivial = scene with an inner block, >1 pole, c4, "
@@ -418,9 +419,15 @@ def gen_multi(rng, i):
     picks = [order[0], order[-1]]
     sc = {"multi": True, "cf": rng.choice([0.99, rng.uniform(0.6, 0.95)]), "shape": [6, 6, 6], "seed": rng.randint(0, 999),
           "order": order, "spheres": [{"pick": picks[0], "at": [0, 0, 0]}, {"pick": picks[1], "at": [3, 3, 3]}]}
-    if i % 2 == 1:
-        sc["device"] = {"order": order[::-1] if len(order) == 2 else order[:2][::-1], "at": [3, 0, 0], "size": [2, 2, 2],
-                        "bits": [rng.randint(0, 1) for _ in range(8)]}
+    if i % 3 != 0:
+        # a dispersive static film (placed after the spheres) and a discrete Device placed last that overlaps it half-way:
+        # i % 3 == 1 -> purely dielectric device (its cells must carry ZERO pole coefficients after apply_params),
+        # i % 3 == 2 -> device with a dispersive material; dict order not ascending in permittivity
+        sc["film"] = {"mat": rng.choice(["ag", "au"]), "at": [0, 0, 3], "size": [6, 6, 2]}
+        dev_order = ["sio2", "air"] if i % 3 == 1 else rng.choice([["au", "sio2"], ["si", "air"], ["ag", "poly"]])
+        bits = [rng.randint(0, 1) for _ in range(8)]
+        bits[0], bits[7] = 0, 1          # both materials present, in and out of the film
+        sc["device"] = {"order": dev_order, "at": [2, 2, 2], "size": [2, 2, 2], "bits": bits}
     return sc
 
 
@@ -440,6 +447,11 @@ def build_multi(sc):
         o = f.Sphere(name=f"s{k}", materials=shared, material_name=sp["pick"], radius=1.5 * res)
         cons.append(o.set_grid_coordinates(axes=(0, 1, 2), sides=("-", "-", "-"), coordinates=tuple(sp["at"])))
         objs.append(o)
+    if sc.get("film"):
+        fm = sc["film"]
+        film = f.UniformMaterialObject(partial_grid_shape=tuple(fm["size"]), material=mats[fm["mat"]], name="film")
+        cons.append(film.set_grid_coordinates(axes=(0, 1, 2), sides=("-", "-", "-"), coordinates=tuple(fm["at"])))
+        objs.append(film)
     if sc.get("device"):
         d = sc["device"]
         dev = f.Device(name="dev", partial_grid_shape=tuple(d["size"]), partial_voxel_grid_shape=(1, 1, 1),
@@ -467,6 +479,9 @@ def build_multi(sc):
             sub = owner[sl]
             sub[mask] = sc["spheres"][int(o.name[1:])]["pick"]
             owner[sl] = sub
+        if o.name == "film":
+            sl = tuple(slice(a, b) for a, b in o.grid_slice_tuple)
+            owner[sl] = sc["film"]["mat"]
         if o.name == "dev":
             d = sc["device"]
             asc = sorted(d["order"], key=lambda n: MM_LIB[n]["eps"])      # index 0/1 = ascending permittivity
@@ -552,7 +567,8 @@ def multi_check(ctx, sc, run_energy=True):
         g, n = growth_run(oc, arrays, cfg, sc["seed"])
         if g > 10.0 and viol is None:
             viol = (f"multi-material scene accepted without error or warning, field energy grew {g:.3g}x within {n} steps "
-                    f"(courant_factor {sc['cf']}, materials dict order {sc['order']}, spheres {sc['spheres']}, device {sc.get('device')})")
+                    f"(courant_factor {sc['cf']}, materials dict order {sc['order']}, spheres {sc['spheres']}, film {sc.get('film')}, "
+                    f"device {sc.get('device')})")
         elif g > 10.0:
             viol += f"; accepted without error or warning, field energy grew {g:.3g}x within {n} steps"
     return viol
@@ -648,10 +664,10 @@ def run(ctx):
         if d:
             ctx.violation({"kind": "scene", "scene": sc}, d)
     # multi-material objects / devices: placed coefficients per cell, warning decision, closed-box energy
-    for i in range(ctx.scale(2, 10)):
+    for i in range(ctx.scale(3, 12)):
         sc = gen_multi(ctx.rng, i)
         d = multi_check(ctx, sc, run_energy=True)
-        ctx.case(nontrivial=("multi", i, tuple(sc["order"])), op="multi-material", layout="device" if sc.get("device") else "spheres")
+        ctx.case(nontrivial=("multi", i, tuple(sc["order"])), op="multi-material", layout=("film+" + ("dielectric" if sc["device"]["order"] == ["sio2", "air"] else "dispersive") + "-device") if sc.get("device") else "spheres")
         if d:
             ctx.violation({"kind": "multi", "scene": sc}, d)
     # zero-strength poles: whole run equals the plain run
@@ -740,7 +756,7 @@ def search(ctx, hints):
                 ctx.violation({"kind": "scene", "scene": sc}, d)
                 return
     rng = ctx.rng.fork()
-    for i in range(5):
+    for i in range(6):
         sc = gen_multi(rng, i)
         ctx.impl_property_evals += 1
         d = replay(ctx, {"kind": "multi", "scene": sc})
